@@ -1,6 +1,6 @@
 """C17 - Python results equal the results of the core definitions on the same data.
 
-Spaces (select with --only): histories, create, countmatrix, normalize_logodds, scoringmatrix, pvalue, revcomp,
+Spaces (select with --only): histories, motif_histories, create, countmatrix, normalize_logodds, scoringmatrix, pvalue, revcomp,
 load, errors.  The explorer and the reference models are on the Python side (refmodel.py); the embedded
 interpreter imports the real `lightmotif` package, `vxref` forces the dispatcher arm and gives the core
 library's answers for the p-value clauses.
@@ -11,6 +11,7 @@ import c17_hist
 import c17_prod
 import c17_load
 import c17_err
+import c17_mhist
 
 SPACES = [
     ("histories", c17_hist.run),
@@ -20,6 +21,7 @@ SPACES = [
     ("scoringmatrix", c17_prod.run_scoringmatrix),
     ("pvalue", c17_prod.run_pvalue),
     ("revcomp", c17_prod.run_revcomp),
+    ("motif_histories", c17_mhist.run),
     ("load", c17_load.run),
     ("errors", c17_err.run),
 ]
@@ -32,6 +34,7 @@ REPLAY = {
     "scoringmatrix": c17_prod.replay_scoringmatrix,
     "pvalue": c17_prod.replay_pvalue,
     "revcomp": c17_prod.replay_revcomp,
+    "motif_history": c17_mhist.replay,
     "load": c17_load.replay,
     "error": c17_err.replay,
 }
